@@ -46,6 +46,8 @@ def _lk(x):
     replaced by their serial number, numbers carry their type."""
     if isinstance(x, Sym):
         return ("\0sym", x.i)
+    if isinstance(x, Touchy):
+        return ("\0touchy", x.t.i)
     if isinstance(x, tuple):
         return tuple(_lk(y) for y in x)
     if isinstance(x, (bool, int, float, complex)):
@@ -58,6 +60,8 @@ def _hk(x):
     levels deep - long chains - must not recurse through repr)."""
     if isinstance(x, Sym):
         return ("\0h", x.h)
+    if isinstance(x, Touchy):
+        return ("\0th", x.t.h)
     if isinstance(x, tuple):
         return tuple(_hk(y) for y in x)
     return x
@@ -155,6 +159,37 @@ class Opaque:
     __deepcopy__ = __copy__ = __reduce_ex__ = __reduce__ = _no
 
 
+class TouchedValue(Exception):
+    """Something inspected a value it was only supposed to pass on."""
+
+
+TOUCHED: list = []  # (what, traceback summary) of every inspection of a Touchy value (read by the differential checks)
+
+
+class Touchy:
+    """A result that may only be PASSED ON (a lazily loaded table, an array-like whose truth value is ambiguous): comparing it,
+    testing its truth, hashing, measuring, iterating, indexing, calling or copying it raises.  Plain Python hands such a value
+    from one function to the next without looking at it, so must a DAG call.  `t` is the term that identifies it."""
+
+    __slots__ = ("t",)
+
+    def __init__(self, base):
+        self.t = Sym("touchy", base)
+
+    def __repr__(self):
+        return "Touchy(%r)" % (self.t,)
+
+    def _no(self, *a, **k):
+        import traceback
+
+        fr = traceback.extract_stack(limit=6)[:-1]
+        TOUCHED.append(" <- ".join("%s:%d:%s" % (f.filename.rsplit("/", 2)[-1], f.lineno, f.name) for f in reversed(fr)))
+        raise TouchedValue("a value that is only to be passed on was inspected")
+
+    __bool__ = __eq__ = __ne__ = __lt__ = __le__ = __gt__ = __ge__ = __hash__ = __len__ = __iter__ = __getitem__ = __contains__ = _no
+    __call__ = __deepcopy__ = __copy__ = __reduce_ex__ = __reduce__ = __index__ = __int__ = __float__ = _no
+
+
 def _bin(op):
     def f(a, b):
         if OP_FAULT[0] is not None:
@@ -184,6 +219,8 @@ def same(a, b):
         return a.keys() == b.keys() and all(same(a[k], b[k]) for k in a)
     if isinstance(a, Sym):
         return a is b
+    if isinstance(a, Touchy):
+        return a.t is b.t
     return a == b
 
 
@@ -205,6 +242,8 @@ def mentions(x, pred):
                 return False
             seen.add(id(v))
             return walk_frozen(v.k)
+        if isinstance(v, Touchy):
+            return walk(v.t)
         if isinstance(v, (list, tuple)):
             return any(walk(e) for e in v)
         if isinstance(v, dict):
@@ -212,7 +251,7 @@ def mentions(x, pred):
         return bool(pred(v))
 
     def walk_frozen(k):
-        if isinstance(k, Sym):
+        if isinstance(k, (Sym, Touchy)):
             return walk(k)
         if isinstance(k, tuple):
             if pred(k):
